@@ -236,7 +236,7 @@ func checkC11(c *Ctx) {
 					flushOK = true
 				}
 			case "(*os.File).Close":
-				if call.Call.Args[0] == fileV && knownNilAt(call, rn.call.Block()) {
+				if resolveCell(call.Call.Args[0]) == fileV && knownNilAt(call, rn.call.Block()) {
 					closeOK = true
 				}
 			}
@@ -379,7 +379,7 @@ func (c *Ctx) rawWriteSeq(m *fsModel, fn *ssa.Function, anchor ssa.Instruction) 
 	}
 	eng.EachInstr(fn, func(in ssa.Instruction) {
 		call, ok := in.(*ssa.Call)
-		if ok && eng.CalleeName(call.Common()) == "(*os.File).Close" && call.Call.Args[0] == fileV && eng.Dominates(call, anchor) && knownNilAt(call, anchor.Block()) {
+		if ok && eng.CalleeName(call.Common()) == "(*os.File).Close" && resolveCell(call.Call.Args[0]) == fileV && eng.Dominates(call, anchor) && knownNilAt(call, anchor.Block()) {
 			closeC = call
 		}
 	})
@@ -438,7 +438,88 @@ func (c *Ctx) c11Add(m *fsModel) {
 		res := eng.ReturnResults(ret)
 		return len(res) > 0 && !eng.IsNilConst(res[len(res)-1])
 	}
+	// a deferred closure that removes the raw file whenever the function's named error result
+	// is non-nil cleans up every error return it dominates
+	deferredCleanup := func(fn *ssa.Function) map[*ssa.Defer]bool {
+		out := map[*ssa.Defer]bool{}
+		for _, d := range eng.Defers(fn) {
+			mc, ok := d.Call.Value.(*ssa.MakeClosure)
+			if !ok {
+				continue
+			}
+			g, _ := mc.Fn.(*ssa.Function)
+			if g == nil || len(g.Blocks) == 0 {
+				continue
+			}
+			// in g: from the `err != nil` true edge (err a captured variable of error type)
+			// every path to return passes the removal
+			for _, b := range g.Blocks {
+				for k := 0; k < len(b.Succs) && len(b.Succs) == 2; k++ {
+					rel, ok := eng.EdgeRel(b, k)
+					if !ok || rel.Op != token.NEQ || !eng.IsNilConst(rel.Y) {
+						continue
+					}
+					u, ok := rel.X.(*ssa.UnOp)
+					if !ok {
+						continue
+					}
+					fv, ok := u.X.(*ssa.FreeVar)
+					if !ok || !types.Identical(fv.Type().(*types.Pointer).Elem(), types.Universe.Lookup("error").Type()) {
+						continue
+					}
+					// the captured variable must be fn's named error result
+					isResult := false
+					for i, bnd := range mc.Bindings {
+						if g.FreeVars[i] == fv {
+							if al, ok := bnd.(*ssa.Alloc); ok && al.Comment != "" {
+								res := fn.Signature.Results()
+								for ri := 0; ri < res.Len(); ri++ {
+									if res.At(ri).Name() == al.Comment && types.Identical(res.At(ri).Type(), types.Universe.Lookup("error").Type()) {
+										isResult = true
+									}
+								}
+							}
+						}
+					}
+					if !isResult {
+						continue
+					}
+					if (&eng.Search{Target: eng.IsReturnOf(g), Avoid: isRmRaw}).FromBlockStart(b.Succs[k]) == nil {
+						out[d] = true
+					}
+				}
+			}
+		}
+		return out
+	}
 	cleanup := func(fn *ssa.Function, errV ssa.Value, what ssa.Instruction) bool {
+		dc := deferredCleanup(fn)
+		if len(dc) > 0 {
+			// error returns after a dominating cleanup defer are covered
+			okAll := true
+			start0 := eng.NilEdgeOf(fn, errV)
+			if start0 != nil {
+				leak := (&eng.Search{Target: errReturn, Avoid: func(in ssa.Instruction) bool {
+					if isRmRaw(in) {
+						return true
+					}
+					if rd, ok := in.(*ssa.RunDefers); ok {
+						for d := range dc {
+							if eng.Dominates(d, rd) {
+								return true
+							}
+						}
+					}
+					return false
+				}}).FromBlockStart(start0)
+				if leak != nil {
+					okAll = false
+				}
+				if okAll {
+					return true
+				}
+			}
+		}
 		start := eng.NilEdgeOf(fn, errV)
 		if start == nil {
 			r.Undecided("C11/ORDER/add", cons+":cleanup", p.InstrPos(what), "cannot find the success edge of the raw-file creation in %s", shortFn(fn))
@@ -575,7 +656,24 @@ func (c *Ctx) c11Remove(m *fsModel) {
 		if e.op != "Remove" || e.class[0] != "raw" {
 			continue
 		}
-		rc := e.call.Call.Args[0].(*ssa.Call)
+		// the raw path is a call of rawPath(msg), possibly held in a local variable
+		var rc *ssa.Call
+		if x, ok := e.call.Call.Args[0].(*ssa.Call); ok {
+			rc = x
+		} else if ad := eng.LoadAddr(e.call.Call.Args[0]); ad != nil {
+			if cell := eng.CellOf(ad); cell != nil {
+				for _, st := range eng.CellStores(cell) {
+					if x, ok := st.Val.(*ssa.Call); ok && eng.StaticCallee(x.Common()) == m.rawPath {
+						rc = x
+					}
+				}
+			}
+		}
+		if rc == nil {
+			n++
+			r.Undecided("C11/ORDER/remove", siteCons(p, e.call, ord, "unlink-indexed"), p.InstrPos(e.call), "cannot tell which message's raw file is unlinked here")
+			continue
+		}
 		msg := p.Actual(rc.Call.Args[0])
 		// fresh = result of the message constructor in this function
 		fresh := false
